@@ -182,12 +182,13 @@ class SparselyBin(Factory, Container):
                 self.origin,
             )
             out.entries = self.entries + other.entries
-            out.bins = self.bins.copy()
+            # every bin of the result is a new object (no child is shared with an operand)
+            out.bins = {}
+            for i, v in self.bins.items():
+                out.bins[i] = v + other.bins[i] if i in other.bins else v.copy()
             for i, v in other.bins.items():
-                if i in out.bins:
-                    out.bins[i] = out.bins[i] + v
-                else:
-                    out.bins[i] = v
+                if i not in out.bins:
+                    out.bins[i] = v.copy()
             return out.specialize()
 
         raise ContainerException(f"cannot add {self.name} and {other.name}")
